@@ -54,6 +54,10 @@ def run(ctx):
         "the translator target c07arms (call skeleton of TypeChecker::expr & co.: which helper, which order, which "
         "expected type; locals alpha-renamed) and its pinned copy Model/TcInferPinned.lean: the claim that "
         "Model/TcInfer.lean does what those arms do rests on the differential run (phase infer), which is testing",
+        "value_cycle.rs: the theorems of Props/C07Cycle are about the hand-written model Model/Tarjan.lean; it is tied to the "
+        "source by the regenerated statement skeleton (target c07cycle, pinned copy Model/TcValueCyclePinned.lean) and by the "
+        "differential run of phase cyc (real tarjan components and find_compilation_order outcome = the model's on every collected "
+        "graph); that the collected reference graph contains every use of a constant / function is tested (six syntactic positions), not proved",
         "Runtime::new() (no registered types / context); single-file scripts",
     ]
     return ctx.finish(
@@ -63,7 +67,9 @@ def run(ctx):
              "broken, category of the reported type error). Tables: every (operator, left shape, right shape) "
              "of the operator table (7 536 rows) by outcome; match heads by (variants, arms, verdict); "
              "unification scripts by (#ok, #fail, #variables); inference model vs checker by (representative | edit "
-             "kind, verdict incl. class of report)",
+             "kind, verdict incl. class of report); value cycles by (shape of the reference cycle, closing reference, rank "
+             "order of the item names | random: simple cycle or knot, size of the component, kind of the first-ranked item, verdict); "
+             "type cycles by (shape, closing mention, wrapper, record or enum first)",
         search=search,
     )
 
